@@ -115,6 +115,10 @@ class struct(_composite_base):
             else:
                 lhs[:] = rhs[:]
         elif codec_kind.is_composite(type(rhs)):
+            if lhs is None:
+                # present optional composite: create the instance to copy into
+                setattr(self, name, True)
+                lhs = getattr(self, name)
             lhs.copy_from(rhs)
         else:
             self._fields[name] = rhs
